@@ -84,6 +84,8 @@ def judge(case):
         return judge_history(case)
     defn = case["def"]
     lines = Z.render(defn)
+    if any(ch in defn["tzid"] for ch in ",;"):      # the id is a TEXT value: Outlook-style names carry commas
+        lines[1] = "TZID:" + defn["tzid"].replace(",", "\\,").replace(";", "\\;")
     if case.get("xprops"):      # extension properties inside the definition (X-LIC-LOCATION and the like): ignored by the semantics
         lines = lines[:2] + [f"X-LIC-LOCATION:{defn['tzid']}", "X-VERIF;X-P=1:anything"][:min(case["xprops"], 2)] + lines[2:]
         if case["xprops"] >= 3:     # ... and inside the observances, short or long enough to be folded when the library writes them
@@ -403,7 +405,7 @@ def definitions(draw):
     if names and draw(st.integers(0, 5)) == 0:
         for ob in obs:      # one abbreviation for every observance (e.g. "BST" for British Standard and British Summer Time, "+07")
             ob["name"] = "LOCAL"
-    defn = {"tzid": draw(st.sampled_from(["Custom/One", "verif-zone", "X Y"])), "obs": obs}
+    defn = {"tzid": draw(st.sampled_from(["Custom/One", "verif-zone", "X Y", "(UTC+01:00) Amsterdam, Berlin, Bern, Rome, Stockholm, Vienna", "Semi;colon/Zone", "Trailing Space ", "W. Europe Standard Time 1"])), "obs": obs}
     times = [t for t, _ in Z.utc_onsets(defn)]
     assume(len(times) == len(set(times)))
     assume(_representable(defn))
